@@ -8,6 +8,7 @@
 // answer does not depend on them (every float subnormal is below 2^-25 and becomes a signed zero anyway; every half
 // subnormal is a normal float), a conversion written with float arithmetic ("multiply by a magic constant") does.
 // Build variant IMATH_HALF_ENABLE_FP_EXCEPTIONS: harness/c01_fpexc.cpp (stage fpexc-build).
+// Build variant IMATH_HALF_NO_LOOKUP_TABLE (the table-free half->float body): harness/c01_nolut.cpp (stage no-lookup-table-build).
 #include "../engine/halfref.hpp"
 #include "../engine/report.hpp"
 #include <half.h>
@@ -18,6 +19,7 @@
 #include <xmmintrin.h>
 
 void c01_fpexc_stage (); // c01_fpexc.cpp
+void c01_nolut_stage (); // c01_nolut.cpp
 
 using namespace vf;
 using IMATH_NAMESPACE::half;
@@ -302,5 +304,7 @@ int main (int argc, char** argv)
 
     // ---- stage 3: the IMATH_HALF_ENABLE_FP_EXCEPTIONS build of the same code (own TU)
     if (R ().stage ("fpexc-build")) c01_fpexc_stage ();
+    // ---- stage 4: the IMATH_HALF_NO_LOOKUP_TABLE build (table-free half->float path; own TU)
+    if (R ().stage ("no-lookup-table-build")) c01_nolut_stage ();
     return R ().finish ();
 }
